@@ -227,8 +227,12 @@ class ParseMCNPCell:
         '''Convert the values of the fill-related keywords into a single
         `fillid` specification.'''
         if kws['f_bounds'] is None and kws['f_univs'] is None:
-            # case of no FILL, no LAT
-            return None
+            if not kws['lattice']:
+                # case of no FILL, no LAT
+                return None
+            # case of LAT without FILL: the elements are made of the material
+            # of the lattice cell, as if it were filled with its own universe
+            kws['f_univs'] = kws['u']
 
         if kws['lattice']:
             # case of FILL=n and LAT=1 or 2
